@@ -129,7 +129,7 @@ jobs:
       - run: echo ${{ «steps».«sphinx_of_black_quartz_judge_my_vow».«outcome» }} ${{ «steps»['«sphinx_of_black_quartz_judge_my_vow»'].«conclusion» }}
       - run: echo ${{ «env».«wenv» }} ${{ «env».«jenv» }} ${{ «inputs».«din» }} ${{ «github».«event».«inputs».«din» }} ${{ «job».«services».«db».«id» }}
       - run: echo ${{ «github».«sha» }} ${{ «github»['«ref_name»'] }} ${{ «runner».«os» }} ${{ «vars».«some_var» }} ${{ «strategy».«fail-fast» }}
-      - run: echo ${{ «contains»(«github».«ref», 'x') }} ${{ «format»('{0}', «toJSON»(«github».«event»)) }} ${{ «fromJSON»('{"«jk»":1}').«jk» }} ${{ «startsWith»('a', 'b') && «hashFiles»('x') }}
+      - run: echo ${{ «contains»(«github».«ref», 'x') }} ${{ «format»('{0}', «toJSON»(«github».«event»)) }} ${{ «fromJSON»('{"«jk»":1}').«jk» }} ${{ «fromJSON»('{"«dk»":{"x":1},"«dk»":{"y":2},"other":{"«dk»":[1]}}').«dk».y }} ${{ «startsWith»('a', 'b') && «hashFiles»('x') }}
         if: ${{ «always»() && «success»() }}
       - run: echo ${{ «contains»(«github».«event».«pull_request».«title», 'x') }} ${{ «startsWith»(«github».«head_ref», 'a') }} ${{ «endsWith»(«github».«event».«pull_request».«body», 'b') }}
   «caller»:
@@ -155,6 +155,9 @@ var c08Noise = map[string]string{
 	"      «cin»: ${{":                         "      nosuchcin: 1\n      «cin»: ${{",
 	// a job that needs itself: what `needs` holds there must not depend on the case of the id
 	"  «last»:\n    needs: [«prep», «caller»]\n": "  «selfneed»:\n    needs: [«selfneed»]\n    runs-on: ubuntu-latest\n    steps:\n      - run: echo ${{ «needs».«selfneed».«result» }}\n  «last»:\n    needs: [«prep», «caller»]\n",
+	// a JSON literal with a repeated key: which member the property names must not depend on the
+	// letter case of the keys (here the first member's x is gone in every spelling)
+	"').«dk».y }}": "').«dk».y }} ${{ «fromJSON»('{\"«dk»\":{\"x\":1},\"«dk»\":{\"y\":2}}').«dk».x }}",
 	// a typed input of the callee is type-checked whatever the case of the key at the caller
 	"      «cnum»: 1\n": "      «cnum»: ${{ 'abc' }}\n",
 	// the script input of actions/github-script is recognised whatever the case of its name
